@@ -62,7 +62,9 @@ func verifUnmarshal(data []byte, v interface{}) error {
 	case 1:
 		return errVerifJSON
 	case 3:
-		*mem = *verifSaved // inverse of Marshal on exported fields (contract of encoding/json)
+		// what encoding/json carries from the saved value: a deep copy of the exported, untagged
+		// fields; everything else comes back as its zero value (contract of encoding/json)
+		verifJSONCopy(mem, verifSaved)
 		return nil
 	}
 	mem.ShardNo = verifNondetInt()
@@ -141,10 +143,18 @@ func VerifIPFIXCacheRoundTrip() {
 		t.ScopeFieldSpecifiers = []TemplateFieldSpecifier{{ElementID: verifNondetU16(), Length: verifNondetU16(), EnterpriseNo: verifNondetU32()}}
 	}
 	m.insert(id, addr, t)
+	// a template announced through the real decoder (whatever derived state the decoder keeps
+	// with a template is then present), with a variable-length field; and data for it
+	// (a concrete exporter and id: which shard they live in plays no role for this part)
+	id3, addr3 := uint16(300), net.IP{192, 0, 2, 33}
+	verifAssume(!verifAll(id == id3, verifAddrSame(addr, addr3)))
+	opt := verifCase(2) == 1
+	tmsg, dmsg := verifTplAndData(id3, opt)
+	_, terr := NewDecoder(addr3, tmsg).Decode(m)
+	verifAssert(terr == nil, "the template announcement decodes")
+	recB, errB := NewDecoder(addr3, append([]byte(nil), dmsg...)).Decode(m)
+	verifAssert(verifAll(errB == nil, recB != nil, len(recB.DataSets) == 1), "data for the announced template decodes before the restart")
 	before, okb := m.retrieve(id2, addr2)
-	// structural precondition of the JSON model: nothing of the saved structure is hidden
-	// from encoding/json (unexported or json:"-" fields would silently not be saved)
-	verifAssert(verifJSONTransparent(memCacheDisk{}), "every data-carrying field of the cache file structure is saved by encoding/json")
 	err := m.Dump("cache.file")
 	verifAssert(err == nil, "Dump succeeds when the file can be written")
 	verifAssert(verifSavedName == "cache.file", "Dump writes the file it was asked to write")
@@ -160,5 +170,84 @@ func VerifIPFIXCacheRoundTrip() {
 			verifAssert(after.ScopeFieldSpecifiers[0] == before.ScopeFieldSpecifiers[0], "same scope field specifiers after the restart")
 		}
 	}
+	recA, errA := NewDecoder(addr3, append([]byte(nil), dmsg...)).Decode(m2)
+	verifAssert(verifAll(errA == nil, recA != nil), "after the restart the same data decodes with the saved template")
+	verifAssert(len(recA.DataSets) == 1, "after the restart the same data yields the same records")
+	fb, fa := recB.DataSets[0], recA.DataSets[0]
+	verifAssert(len(fa) == len(fb), "same number of fields after the restart")
+	for i := range fb {
+		verifAssert(fa[i].ID == fb[i].ID, "same element ids after the restart")
+		switch x := fb[i].Value.(type) {
+		case uint32:
+			y, ok := fa[i].Value.(uint32)
+			verifAssert(verifAll(ok, x == y), "same unsigned32 value after the restart")
+		case uint64:
+			y, ok := fa[i].Value.(uint64)
+			verifAssert(verifAll(ok, x == y), "same unsigned64 value after the restart")
+		case string:
+			y, ok := fa[i].Value.(string)
+			verifAssert(ok, "same value type after the restart")
+			verifAssert(verifStrEq(x, y), "same text after the restart")
+		}
+	}
 	verifReach("end")
+}
+
+func verifAddrSame(a, b net.IP) bool {
+	if len(a) != len(b) {
+		return false
+	}
+	eq := true
+	for i := range a {
+		eq = verifAll(eq, verifAt(a, i) == verifAt(b, i))
+	}
+	return eq
+}
+
+// a template message announcing id with (options template: a 4-octet ingressInterface scope field,)
+// octetDeltaCount (8 octets) and interfaceName (variable length), and a data message with one
+// record for it (2 octets of text), all values symbolic
+func verifTplAndData(id uint16, opt bool) (tmsg, dmsg []byte) {
+	put16 := func(b []byte, o int, v uint16) { b[o], b[o+1] = byte(v>>8), byte(v) }
+	tl := 4 + 4 + 8
+	if opt {
+		tl = 4 + 6 + 12
+	}
+	tmsg = make([]byte, 16+tl)
+	put16(tmsg, 0, 10)
+	put16(tmsg, 2, uint16(16+tl))
+	o := 16
+	if opt {
+		put16(tmsg, o, 3)
+		put16(tmsg, o+2, uint16(tl))
+		put16(tmsg, o+4, id)
+		put16(tmsg, o+6, 3)
+		put16(tmsg, o+8, 1)
+		put16(tmsg, o+10, 10)
+		put16(tmsg, o+12, 4)
+		o += 14
+	} else {
+		put16(tmsg, o, 2)
+		put16(tmsg, o+2, uint16(tl))
+		put16(tmsg, o+4, id)
+		put16(tmsg, o+6, 2)
+		o += 8
+	}
+	put16(tmsg, o, 1)
+	put16(tmsg, o+2, 8)
+	put16(tmsg, o+4, 82)
+	put16(tmsg, o+6, 65535)
+	rl := 8 + 1 + 2
+	if opt {
+		rl += 4
+	}
+	dmsg = make([]byte, 16+4+rl)
+	put16(dmsg, 0, 10)
+	put16(dmsg, 2, uint16(16+4+rl))
+	put16(dmsg, 16, id)
+	put16(dmsg, 18, uint16(4+rl))
+	body := verifNondetBytes(rl)
+	copy(dmsg[20:], body)
+	dmsg[20+rl-3] = 2 // the length prefix of the text
+	return
 }
